@@ -166,7 +166,8 @@ def _sizes(mx):
 
 @st.composite
 def camxspecs(draw, formats=ALL_FORMATS, max_n=5, max_nz=5, max_steps=4,
-              max_spec=4, steps_min=1, step_choices=(1, 1, 1, 1, 2, 3, 6),
+              max_spec=4, steps_min=1,
+              step_choices=(1, 1, 1, 1, 1, 2, 3, 6, 12, 24, 24, 24, 48),
               names=UAMIV_NAMES, weights=None):
     pool = []
     for f_ in formats:
